@@ -33,11 +33,15 @@ PROPERTY = "C16"
 MASKED = -1e8
 
 # concrete evaluation of the uninterpreted symbols (pconst mode)
+def _softplus(z):
+    return max(z, 0.0) + math.log1p(math.exp(-abs(z)))
+
+
 core._UF_CONCRETE.update({
     "norm_lp": lambda mu, s, x: -((x - mu) ** 2) / (2 * s * s) - math.log(s) - 0.5 * math.log(2 * math.pi),
     "norm_H": lambda s: 0.5 + 0.5 * math.log(2 * math.pi) + math.log(s),
-    "bern_lp": lambda l, x: -math.log1p(math.exp(-l)) if x >= 0.5 else -math.log1p(math.exp(l)),
-    "bern_H": lambda l: (lambda p: -(p * math.log(p) + (1 - p) * math.log(1 - p)))(1 / (1 + math.exp(-l))),
+    "bern_lp": lambda l, x: -_softplus(-l) if x >= 0.5 else -_softplus(l),
+    "bern_H": lambda l: _softplus(-abs(l)) + abs(l) * (math.exp(-abs(l)) / (1 + math.exp(-abs(l)))),
 })
 
 
@@ -63,14 +67,19 @@ for _n in range(1, 6):
 
 def UF(name, *args):
     """density / entropy symbol: uninterpreted in sym mode, the true value otherwise"""
+    args = [(1e300 if a > 0 else -1e300) if isinstance(a, float) and math.isinf(a) else a for a in args]      # an infinite parameter: a distinct huge constant
     if any(isinstance(a, Sym) for a in args):
         return uf_apply(name, *args)
     return core._UF_CONCRETE[name](*[float(a) for a in args])
 
 
+NONFINITE = []      # (distribution, what) recorded by the stand-ins of the current run
+
+
 def make_dists(v):
     """stand-ins for Normal / Categorical / Bernoulli in agilerl.networks.distributions"""
     sym = v.mode != "real"
+    del NONFINITE[:]
 
     class SNormal(Normal):
         def __init__(self, loc, scale, **k):
@@ -136,9 +145,14 @@ def make_dists(v):
             else:
                 Bernoulli.__init__(self, logits=logits)
                 self.logits_in = logits
+            # torch's Bernoulli wants real-valued logits: log_prob(0) and entropy() of an infinite logit are NaN
+            if any((not isinstance(x, Sym)) and not math.isfinite(float(x)) for x in elems(logits)):
+                NONFINITE.append(("Bernoulli", "logits"))
 
         def sample(self, *a, **k):
             t = v.tensor("bern", tuple(self.logits_in.shape), "flag", dtype=v.float_dtype)
+            for x, l in zip(elems(t), elems(self.logits_in)):
+                v.assume(disj(gt(l, MASKED), eq(x, 0)), "Bernoulli never samples 1 for a bit whose logit is -1e8 (or below)")
             return t
 
         if sym:
@@ -269,6 +283,7 @@ class DistCase(Case):
                 return sum(UF("bern_lp", lg(b, j), act_row[j]) for j in range(nl)), sum(UF("bern_H", lg(b, j)) for j in range(nl))
             return sum(UF("norm_lp", lg(b, j), sigma[j], act_row[j]) for j in range(nl)), sum(UF("norm_H", sigma[j]) for j in range(nl))
 
+        res.append(Ob("distribution-parameters-are-finite-(log-prob-and-entropy-are-defined)", not NONFINITE, site=self.site + "/non-finite-parameters"))
         want_shape = (B,) if isinstance(sp, spaces.Discrete) else (B, nl if not isinstance(sp, spaces.MultiDiscrete) else len(sp.nvec))
         res.append(Ob("action-has-the-batch-shape-of-the-space", tuple(action.shape) == want_shape))
         res.append(Ob("log-prob-is-one-number-per-batch-row", tuple(logp.shape) == (B,), site=self.site + "/sum-over-components-not-batch"))
@@ -308,6 +323,8 @@ class DistCase(Case):
                         o += int(n)
                 else:
                     res.append(Ob(f"row{b}/action-in-the-support", conj(*[disj(eq(a, 0), eq(a, 1)) for a in arow]), site=self.site + "/support"))
+                    if mask is not None:
+                        res.append(Ob(f"row{b}/masked-bit-never-set", conj(*[disj(eq(mask[b, j], 1), eq(arow[j], 0)) for j in range(nl)]), site=self.site + "/mask"))
                 lp, h = lp_of(mlogit, arow, b)
                 res.append(Ob(f"row{b}/log-prob-is-the-(sum-of)-component-log-probabilities-under-the-masked-logits-at-the-returned-action", eq(val(logp, b), lp),
                               site=self.site + "/log-prob"))
@@ -440,12 +457,15 @@ class IPPOMaskRouting(Case):
 
 def cases(tier):
     cs = [DistCase("discrete3"), DistCase("discrete3", masked=True), DistCase("multidiscrete23"), DistCase("multidiscrete23", masked=True),
-          DistCase("multibinary3"), DistCase("box2"), DistCase("box2", squash=True), DistCase("box1", B=2),
+          DistCase("multibinary3"), DistCase("multibinary3", masked=True), DistCase("box2"), DistCase("box2", squash=True), DistCase("box1", B=2),
           DistCase("discrete3", reeval=True), DistCase("multidiscrete23", reeval=True), DistCase("box2", reeval=True), DistCase("box2", squash=True, reeval=True),
           DistCase("multibinary3", reeval=True),
           DistCase("box2", squash=True, history="recreate"), DistCase("box2", squash=True, history="clone"), DistCase("box2", history="latent-mutation"),
           DistCase("discrete3", masked=True, history="clone"),
           IPPOMaskRouting(2, 2), IPPOMaskRouting(3, 2), IPPOMaskRouting(2, 2, arrays=True)]
+    # PPO level: the action PPO.get_action returns in training mode is the very sample whose log-probability it reports (C14's harness)
+    from .c14_actions import PPOEvalAction
+    cs += [PPOEvalAction(False, True), PPOEvalAction(True, True)]
     if tier == "thorough":
         cs += [DistCase("discrete3", B=3, masked=True), DistCase("multidiscrete23", B=3, masked=True), DistCase("box2", B=3, squash=True), DistCase("box1", squash=True)]
     return cs
